@@ -731,6 +731,12 @@ func lemmaRawAllIsRenderAll(last, mid branchFormat, roots []*Node, i int) {
 	}
 }
 
+// Ghost bookkeeping of library calls, for the CLI contracts (C16): libWriter is the writer the last Output call was
+// given, libFailed that some library call returned an error, libCalls the number of library calls.
+//@ ghost var libWriter any
+//@ ghost var libFailed bool
+//@ ghost var libCalls int
+
 // ---------------------------------------------------------------------------------------------
 // tree_handler.go: From-Markdown entry points (and their deprecated aliases: same shared contracts)
 
@@ -742,7 +748,10 @@ func lemmaRawAllIsRenderAll(last, mid branchFormat, roots []*Node, i int) {
 //@   modifies Node.children, Node.parent, Node.brnch.value, Node.brnch.path, list.List.view, list.Element.backOf, counter.n, bufio.Scanner.pos, bufio.Scanner.failed, markdown.Parser.isSharpRoot, markdown.Parser.spaces, markdown.Parser.sep, cbTrace, cbFailed, cbLastErr
 
 //@ contract fromMarkdownOutput
-//@   modifies Node.children, Node.parent, Node.brnch.value, Node.brnch.path, list.List.view, list.Element.backOf, counter.n, bufio.Scanner.pos, bufio.Scanner.failed, markdown.Parser.isSharpRoot, markdown.Parser.spaces, markdown.Parser.sep, out, wfail, defaultSpreaderSimple.w, encTrace, encoders
+//@   modifies Node.children, Node.parent, Node.brnch.value, Node.brnch.path, list.List.view, list.Element.backOf, counter.n, bufio.Scanner.pos, bufio.Scanner.failed, markdown.Parser.isSharpRoot, markdown.Parser.spaces, markdown.Parser.sep, out, wfail, defaultSpreaderSimple.w, encTrace, encoders, libWriter, libFailed, libCalls
+//@   ghostset libWriter := w
+//@   ghostset libFailed := old(libFailed) || result != nil
+//@   ghostset libCalls := old(libCalls) + 1
 //@   ensures render [C01,C03,C12,C14,C17]: exists c *config :: {c.massive} fresh(c) && (!c.massive && c.encode == encodeDefault && !c.dryrun && result == nil ==> (old(wfail) || !wfail) && (c.noUseIterOfSimpleOutput ==> (exists rs []*Node :: allRoots(rs) && out[w] == old(out[w]) ++ specRenderAll(c.lastNodeFormat, c.intermedialNodeFormat, rs, len(rs)))))
 //@   ensures dryfs [C09]: fsOps == old(fsOps) && fsFailed == old(fsFailed)
 //@ applies fromMarkdownOutput to gtree.OutputFromMarkdown, gtree.Output
@@ -994,7 +1003,9 @@ func fsExistsAt(p string) bool { _, err := os.Stat(p); return !os.IsNotExist(err
 //@   modifies Node.brnch.value, Node.brnch.path, fsOps, fsFailed, defaultGrowerSimple.enabledValidation, out, wfail, counter.n
 
 //@ contract fromMarkdownMkdir
-//@   modifies Node.children, Node.parent, Node.brnch.value, Node.brnch.path, list.List.view, list.Element.backOf, counter.n, bufio.Scanner.pos, bufio.Scanner.failed, markdown.Parser.isSharpRoot, markdown.Parser.spaces, markdown.Parser.sep, fsOps, fsFailed, defaultGrowerSimple.enabledValidation
+//@   modifies Node.children, Node.parent, Node.brnch.value, Node.brnch.path, list.List.view, list.Element.backOf, counter.n, bufio.Scanner.pos, bufio.Scanner.failed, markdown.Parser.isSharpRoot, markdown.Parser.spaces, markdown.Parser.sep, fsOps, fsFailed, defaultGrowerSimple.enabledValidation, libFailed, libCalls
+//@   ghostset libFailed := old(libFailed) || result != nil
+//@   ghostset libCalls := old(libCalls) + 1
 //@   ensures mkdir [C06,C12]: exists c *config :: {witness(cfg)} fresh(c) && (!c.massive && c.encode == encodeDefault && result == nil ==> fsFailed == old(fsFailed) && (exists rs []*Node :: {specMkOpsAll((len(c.targetDir) != 0 ? c.targetDir : "."), c.fileExtensions, rs, len(rs))} allRoots(rs) && !specAnyRootExists((len(c.targetDir) != 0 ? c.targetDir : "."), rs, 0) && fsOps == old(fsOps) ++ specMkOpsAll((len(c.targetDir) != 0 ? c.targetDir : "."), c.fileExtensions, rs, len(rs))))
 //@   ensures validated [C07,C12]: exists c *config :: {witness(cfg)} fresh(c) && (!c.massive && c.encode == encodeDefault && fsOps != old(fsOps) ==> (exists rs []*Node :: {allRootsT(rs)} allRootsT(rs) && (forall k int :: {rs[k]} 0 <= k && k < len(rs) ==> validated(rs[k]))))
 //@ applies fromMarkdownMkdir to gtree.MkdirFromMarkdown, gtree.Mkdir
@@ -1089,7 +1100,9 @@ func specPathInKids(target string, n *Node, x string, i int) bool {
 //@   modifies Node.brnch.value, Node.brnch.path, defaultGrowerSimple.enabledValidation, maps
 
 //@ contract fromMarkdownVerify
-//@   modifies Node.children, Node.parent, Node.brnch.value, Node.brnch.path, list.List.view, list.Element.backOf, counter.n, bufio.Scanner.pos, bufio.Scanner.failed, markdown.Parser.isSharpRoot, markdown.Parser.spaces, markdown.Parser.sep, defaultGrowerSimple.enabledValidation, maps
+//@   modifies Node.children, Node.parent, Node.brnch.value, Node.brnch.path, list.List.view, list.Element.backOf, counter.n, bufio.Scanner.pos, bufio.Scanner.failed, markdown.Parser.isSharpRoot, markdown.Parser.spaces, markdown.Parser.sep, defaultGrowerSimple.enabledValidation, maps, libFailed, libCalls
+//@   ghostset libFailed := old(libFailed) || result != nil
+//@   ghostset libCalls := old(libCalls) + 1
 //@   ensures fsframe [C08,C12]: fsOps == old(fsOps) && fsFailed == old(fsFailed)
 //@ applies fromMarkdownVerify to gtree.VerifyFromMarkdown, gtree.Verify
 
